@@ -1,0 +1,214 @@
+// SPDX-License-Identifier: MPL-2.0
+
+//! Verification hook (feature `verif-hooks` only): instantiations of the *same generic* field
+//! arithmetic (`FieldOps`, `impl_field_ops_single_word!`, `impl_field_ops_split_word!`) at 8- and
+//! 16-bit word sizes with small primes, so that the arithmetic can be compared exhaustively with
+//! plain integer arithmetic. Nothing here is used by the library itself.
+
+use super::ops::{FieldOps, FieldParameters, Word};
+use super::MAX_ROOTS;
+
+impl Word for u8 {
+    const BITS: usize = Self::BITS as usize;
+}
+
+impl Word for u16 {
+    const BITS: usize = Self::BITS as usize;
+}
+
+const fn pow_mod(mut b: u64, mut e: u64, m: u64) -> u64 {
+    let mut r = 1 % m;
+    b %= m;
+    while e > 0 {
+        if e & 1 == 1 {
+            r = r * b % m;
+        }
+        b = b * b % m;
+        e >>= 1;
+    }
+    r
+}
+
+/// -p^(-1) mod 2^k
+const fn neg_inv_pow2(p: u64, k: u32) -> u64 {
+    let m = 1u64 << k;
+    // Newton iteration for the inverse of an odd number modulo 2^k
+    let mut inv = 1u64;
+    let mut i = 0;
+    while i < 6 {
+        inv = inv.wrapping_mul(2u64.wrapping_sub(p.wrapping_mul(inv))) % m;
+        i += 1;
+    }
+    (m - inv % m) % m
+}
+
+macro_rules! small_field {
+    ($name:ident, $W:ty, $wbits:expr, $mubits:expr, $p:expr) => {
+        /// Small-prime instantiation of the generic field arithmetic.
+        pub struct $name;
+        impl FieldParameters<$W> for $name {
+            const PRIME: $W = $p;
+            const MU: $W = neg_inv_pow2($p as u64, $mubits) as $W;
+            const R2: $W = pow_mod(1u64 << $wbits, 2, $p as u64) as $W;
+            const G: $W = 0;
+            const NUM_ROOTS: usize = 0;
+            const BIT_MASK: $W = <$W>::MAX >> (($p as $W).leading_zeros());
+            const ROOTS: [$W; MAX_ROOTS + 1] = {
+                let mut r = [0 as $W; MAX_ROOTS + 1];
+                // ROOTS[0] is one in the Montgomery domain, i.e. R mod p
+                r[0] = ((1u64 << $wbits) % ($p as u64)) as $W;
+                r
+            };
+            const HALF: $W = (((($p as u64) + 1) / 2) * ((1u64 << $wbits) % ($p as u64)) % ($p as u64)) as $W;
+            #[cfg(test)]
+            const LOG2_BASE: usize = $mubits;
+            #[cfg(test)]
+            const LOG2_RADIX: usize = $wbits;
+        }
+    };
+}
+
+// single-word code at (u8, u16)
+small_field!(S8P251, u8, 8, 8, 251);
+impl_field_ops_single_word!(S8P251, u8, u16);
+small_field!(S8P241, u8, 8, 8, 241);
+impl_field_ops_single_word!(S8P241, u8, u16);
+small_field!(S8P193, u8, 8, 8, 193);
+impl_field_ops_single_word!(S8P193, u8, u16);
+small_field!(S8P97, u8, 8, 8, 97);
+impl_field_ops_single_word!(S8P97, u8, u16);
+small_field!(S8P13, u8, 8, 8, 13);
+impl_field_ops_single_word!(S8P13, u8, u16);
+
+// single-word code at (u16, u32)
+small_field!(S16P65521, u16, 16, 16, 65521);
+impl_field_ops_single_word!(S16P65521, u16, u32);
+small_field!(S16P61441, u16, 16, 16, 61441);
+impl_field_ops_single_word!(S16P61441, u16, u32);
+small_field!(S16P40961, u16, 16, 16, 40961);
+impl_field_ops_single_word!(S16P40961, u16, u32);
+small_field!(S16P12289, u16, 16, 16, 12289);
+impl_field_ops_single_word!(S16P12289, u16, u32);
+
+// split-word code at (u16, u8): MU is taken modulo the half word
+small_field!(H16P65521, u16, 16, 8, 65521);
+impl_field_ops_split_word!(H16P65521, u16, u8);
+small_field!(H16P61441, u16, 16, 8, 61441);
+impl_field_ops_split_word!(H16P61441, u16, u8);
+small_field!(H16P40961, u16, 16, 8, 40961);
+impl_field_ops_split_word!(H16P40961, u16, u8);
+small_field!(H16P12289, u16, 16, 8, 12289);
+impl_field_ops_split_word!(H16P12289, u16, u8);
+
+/// A table of the raw (Montgomery-domain) operations and constants of one field instantiation.
+#[derive(Clone, Copy)]
+pub struct RawField<W: 'static> {
+    /// Name of the instantiation.
+    pub name: &'static str,
+    /// Word size in bits.
+    pub word_bits: usize,
+    /// `true` for the split-word multiplication code.
+    pub split_word: bool,
+    /// PRIME
+    pub prime: W,
+    /// MU
+    pub mu: W,
+    /// R2
+    pub r2: W,
+    /// G
+    pub g: W,
+    /// NUM_ROOTS
+    pub num_roots: usize,
+    /// BIT_MASK
+    pub bit_mask: W,
+    /// ROOTS
+    pub roots: &'static [W],
+    /// HALF
+    pub half: W,
+    /// add
+    pub add: fn(W, W) -> W,
+    /// sub
+    pub sub: fn(W, W) -> W,
+    /// neg
+    pub neg: fn(W) -> W,
+    /// mul
+    pub mul: fn(W, W) -> W,
+    /// pow
+    pub pow: fn(W, W) -> W,
+    /// inv
+    pub inv: fn(W) -> W,
+    /// montgomery
+    pub montgomery: fn(W) -> W,
+    /// residue
+    pub residue: fn(W) -> W,
+}
+
+macro_rules! raw_field {
+    ($name:ident, $W:ty, $split:expr) => {
+        RawField::<$W> {
+            name: stringify!($name),
+            word_bits: <$W>::BITS as usize,
+            split_word: $split,
+            prime: <$name as FieldParameters<$W>>::PRIME,
+            mu: <$name as FieldParameters<$W>>::MU,
+            r2: <$name as FieldParameters<$W>>::R2,
+            g: <$name as FieldParameters<$W>>::G,
+            num_roots: <$name as FieldParameters<$W>>::NUM_ROOTS,
+            bit_mask: <$name as FieldParameters<$W>>::BIT_MASK,
+            roots: &<$name as FieldParameters<$W>>::ROOTS,
+            half: <$name as FieldParameters<$W>>::HALF,
+            add: <$name as FieldOps<$W>>::add,
+            sub: <$name as FieldOps<$W>>::sub,
+            neg: <$name as FieldOps<$W>>::neg,
+            mul: <$name as FieldOps<$W>>::mul,
+            pow: <$name as FieldOps<$W>>::pow,
+            inv: <$name as FieldOps<$W>>::inv,
+            montgomery: <$name as FieldOps<$W>>::montgomery,
+            residue: <$name as FieldOps<$W>>::residue,
+        }
+    };
+}
+
+/// The 8-bit instantiations (single-word code with a 16-bit double word).
+pub fn small_fields_u8() -> Vec<RawField<u8>> {
+    vec![
+        raw_field!(S8P251, u8, false),
+        raw_field!(S8P241, u8, false),
+        raw_field!(S8P193, u8, false),
+        raw_field!(S8P97, u8, false),
+        raw_field!(S8P13, u8, false),
+    ]
+}
+
+/// The 16-bit instantiations: single-word code (32-bit double word) and split-word code (8-bit
+/// half word).
+pub fn small_fields_u16() -> Vec<RawField<u16>> {
+    vec![
+        raw_field!(S16P65521, u16, false),
+        raw_field!(S16P61441, u16, false),
+        raw_field!(S16P40961, u16, false),
+        raw_field!(S16P12289, u16, false),
+        raw_field!(H16P65521, u16, true),
+        raw_field!(H16P61441, u16, true),
+        raw_field!(H16P40961, u16, true),
+        raw_field!(H16P12289, u16, true),
+    ]
+}
+
+/// Raw operations of the deployed 32-bit field.
+pub fn fp32() -> RawField<u32> {
+    use super::FP32;
+    raw_field!(FP32, u32, false)
+}
+
+/// Raw operations of the deployed 64-bit field.
+pub fn fp64() -> RawField<u64> {
+    use super::FP64;
+    raw_field!(FP64, u64, false)
+}
+
+/// Raw operations of the deployed 128-bit field.
+pub fn fp128() -> RawField<u128> {
+    use super::FP128;
+    raw_field!(FP128, u128, true)
+}
